@@ -93,6 +93,14 @@ def fieldS (l m : Nat) (w : Nat) : Int :=
   if 2 * fieldU l m w < 2 ^ fieldWidth l m then (fieldU l m w : Int)
   else (fieldU l m w : Int) - 2 ^ fieldWidth l m
 
+/-- What the `i64` API reports for the field of a register word: two's complement when
+signed; the unsigned field otherwise (through `asI64`: only a 64-bit wide unsigned field
+with its top bit set is affected). -/
+def fieldReading (s : Sign) (l m : Nat) (w : Nat) : Int :=
+  match s with
+  | .signed => fieldS l m w
+  | .unsigned => asI64 (fieldU l m w)
+
 /-- Representable range of a `wd`-bit field. -/
 def fieldMin (s : Sign) (wd : Nat) : Int :=
   match s with
